@@ -25,6 +25,14 @@ CHECKS = {
                 technique="explicit-state enumeration of the real generated set classes: complete value space for 8/16-bit sets x every index x {get,set0,set1} x {named, by-tag, visit}; structured value alphabet for 32/64-bit",
                 text="8- and 16-bit sets: every underlying value x every choice index x every operation is executed on the generated accessors (complete state space). 32/64-bit: walking-bit/complement/boundary patterns x every index. Oracle: Python-style integer bit arithmetic in the harness. Constant evaluation: static_assert table in C++14+ cells.",
                 note="Trusted: compilers, harness. 32/64-bit value spaces are covered by a structured subset only (stated in evidence)."),
+    "C03": dict(category="exploration", design_ref="DESIGN.md 5 / C03",
+                technique="bounded-exhaustive enumeration of images whose wire blockLength is extended independently at every level (3^L vectors), decoded by generated readers on the real accessors against an independent codec",
+                text="Every image of the bounded space is re-encoded by the reference codec with the root block and every group's entry block extended by 0, 1 or 7 bytes independently per level, then decoded by random access, plain cursor traversal and get_by_tag; every compiled field, entry, nested group and data member must be found where the wire image puts it and size_bytes of message/group/entry must equal the wire size.",
+                note="Trusted: compilers, reference codec. Visiting under extension is C19's recorder on the same images."),
+    "C04": dict(category="model_checking", design_ref="DESIGN.md 5 / C04, Appendix A",
+                technique="explicit-state exploration of the cursor protocol on the real accessors: states = every byte offset of the image (+null) for every view reachable by random access, transitions = every (member, wrapper, get/set) label from every state; plus complete traversals under every cyclic wrapper-choice string and every group iteration style; reference = documented protocol table",
+                text="For each image the cursor is placed at every offset 0..len and null; from each state every cursor accessor of every view with every wrapper is called in a checked build. Legal calls must return the random-access value/address and leave the cursor at the documented position; illegal plain/dont_move/skip calls must reach the assertion handler (no silent return, no fault). Complete in-order traversals with all wrapper choice strings up to the length bound and five iteration styles must end at the message end.",
+                note="Trusted: compilers, the protocol table (DESIGN.md Appendix A), harness capture of the assertion handler via siglongjmp."),
     "C12": dict(category="model_checking", design_ref="DESIGN.md 5 / C12",
                 technique="explicit-state exploration of the real group iterators: state = iterator index, all iterator-op sequences up to depth 3 from begin() and end(), integer index model; all 16 dimension type pairs",
                 text="For each of the 16 (numInGroup, blockLength) type pairs x group sizes 0..3 x wire block lengths {0,1,2,5}: every in-domain sequence of iterator operations up to the depth bound is executed on the generated group views; after every step the entry address, it[k], (it+k)-k, distances and all six orderings against an iterator at every index are compared with index arithmetic. Nested groups: all inner-count vectors over {0,1,2}^n. resize/clear are checked to change only numInGroup.",
